@@ -66,7 +66,7 @@ def cases(tier, seed):
         # interior cell that is queried): the stored value of the queried cell is what comes back, for every field
         d = dict(mesh)
         d.update(list(scope.geometries(3))[(mi + seed) % 6])
-        d.update({"fields": ["temp", "density", "Z"], "payload": ["affidx*1e12", "affidx+hostile", "affidx*1e-15"], "seed": seed,
+        d.update({"fields": ["temp", "density", "Z"], "payload": ["affidx*1e12", "affidx+hostile+nfinterior", "affidx*1e-15"], "seed": seed,
                   "layout": [scope.layouts(len(b), 'idrev')[0] for b in mesh["levels"]]})
         out.append({"desc": d, "w": len(mesh["levels"]) ** 2})
     # level directories named otherwise than Level_k
@@ -83,6 +83,12 @@ def cases(tier, seed):
               "layout": [scope.layouts(2, 'idrev')[-1]] * 7})
     out.append({"desc": d, "w": 30})
     return out
+
+
+def close(got, exp, tol):
+    """|got - exp| <= tol, a stored NaN answered by NaN, a stored infinity by the same infinity"""
+    with np.errstate(invalid="ignore"):
+        return (np.abs(got - exp) <= tol) | (np.isnan(got) & np.isnan(exp)) | (got == exp)
 
 
 def run_case(case, workdir):
@@ -124,7 +130,7 @@ def run_case(case, workdir):
                             exp_ = np.array([ref.data[lv][b][loc + (f,)] for f in fidx])
                             tol_ = np.array([1e-9 * float(np.max(np.abs(ref.data[lv][b][..., f][np.isfinite(ref.data[lv][b][..., f])]))) for f in fidx]) + 1e-300
                             got_ = np.atleast_1d(np.asarray(val_, dtype=float)).ravel() if st_ != "exc" else None
-                            if st_ == "exc" or got_.shape != exp_.shape or not np.all(np.abs(got_ - exp_) <= tol_):
+                            if st_ == "exc" or got_.shape != exp_.shape or not np.all(close(got_, exp_, tol_)):
                                 rec.fail("values", {"level": lv, "box": b, "cell": g, "point": pt_, "selection": tag, "spelling_of": pt},
                                          "returned %r, stored %r" % (exc_text(val_) if st_ == "exc" else got_.tolist(), exp_.tolist()))
                     for tag, sel, fidx in sels:
@@ -139,7 +145,7 @@ def run_case(case, workdir):
                         # through an interpolation filter over the whole box)
                         tol = np.array([1e-9 * float(np.max(np.abs(ref.data[lv][b][..., f][np.isfinite(ref.data[lv][b][..., f])]))) for f in fidx]) + 1e-300
                         got = np.atleast_1d(np.asarray(val, dtype=float)).ravel()
-                        if got.shape != exp.shape or not np.all(np.abs(got - exp) <= tol):
+                        if got.shape != exp.shape or not np.all(close(got, exp, tol)):
                             rec.fail("values", sub, "returned %r, stored %r" % (got.tolist(), exp.tolist()))
                         st2, val2 = call(lambda: reused[tag](*pt))
                         rec.exe([dh, lv, g, tag, "reused"], nontrivial=True)
@@ -147,7 +153,7 @@ def run_case(case, workdir):
                             rec.fail("history_raised", dict(sub, selector="re-used object"), exc_text(val2))
                         else:
                             got2 = np.atleast_1d(np.asarray(val2, dtype=float)).ravel()
-                            if got2.shape != exp.shape or not np.all(np.abs(got2 - exp) <= tol):
+                            if got2.shape != exp.shape or not np.all(close(got2, exp, tol)):
                                 rec.fail("history_dependent", dict(sub, selector="re-used object"),
                                          "a selector object queried before returned %r, stored %r" % (got2.tolist(), exp.tolist()))
         # outside the domain: every side, half a coarse cell and five cells out
